@@ -20,7 +20,7 @@ RULE = ("one case = (N from {2,3,4,5,8,17,64,255,1024,4095}, dt log-uniform 1e-1
 ASSUMPTIONS = ["scipy.fft is trusted", "the time step of a grid is its stored times[1]-times[0]",
                "translation tolerance = 1e-10 + 4 eps |offset|/dt * max|f dH/df| (conditioning of dt under the offset)"]
 BUDGET = {"quick": 300, "thorough": 3600}
-KINDS = ["lowpass", "brickwall", "delay", "scalar-only", "unit", "gaussian", "positive-only", "scalar-constant", "smooth", "non-hermitian"]
+KINDS = ["lowpass", "brickwall", "delay", "scalar-only", "unit", "gaussian", "positive-only", "scalar-constant", "smooth", "non-hermitian", "scalar-only-mixed-type", "scalar-only-delay"]
 
 
 def gen_cases(tier, seed):
@@ -40,6 +40,9 @@ def gen_cases(tier, seed):
             c["cls"] = "delay<=N" if c["m"] <= N else "delay>N"
             c["force_real"] = True
         if kind == "positive-only":
+            c["force_real"] = True
+        if kind == "scalar-only-delay":
+            c["m"] = int(rng.integers(0, N + 1))
             c["force_real"] = True
         out.append(c)
     return out
@@ -81,6 +84,26 @@ def responses(case, dts):
 
         def p(f):
             return complex(1 / (1 + (float(f) / fc) ** 2))      # float(array) raises TypeError for size > 1
+        return p, t, True
+    if kind == "scalar-only-mixed-type":
+        # a high-pass written for one frequency at a time, returning the literal int 0 at DC, a float below fc and a complex above
+        t = lambda f: np.where(np.asarray(f) == 0, 0.0, np.where(np.abs(f) < fc, 0.25, 1j * np.abs(np.asarray(f)) / (np.abs(np.asarray(f)) + fc))) + 0j
+
+        def p(f):
+            f = float(f)
+            if f == 0:
+                return 0
+            if abs(f) < fc:
+                return 0.25
+            return 1j * abs(f) / (abs(f) + fc)
+        return p, t, True
+    if kind == "scalar-only-delay":
+        m = case["m"]
+        t = lambda f: np.exp(-2j * np.pi * np.asarray(f) * m * dts)
+
+        def p(f):
+            f = float(f)
+            return 1 if f == 0 else complex(np.exp(-2j * np.pi * f * m * dts))
         return p, t, True
     if kind == "unit":
         t = lambda f: 1.0 + 0 * np.asarray(f)
@@ -142,11 +165,11 @@ def run_case(case):
     tol = 1e-13 * (1 + np.log2(N))      # calibration: worst seen 2e-15 over 6e4 cases; FFT round-off grows as log N
     out = run(vals)
     v.check(out.shape == (N,) and out.dtype.kind == "f" and bool(np.all(np.isfinite(out))), "output is a real signal on the input grid", shape=list(out.shape), dtype=str(out.dtype))
-    if case["cls"] == "scalar-only":
+    if case["cls"].startswith("scalar-only"):
         v.check(asked["scalar"] >= 1, "scalar-only response reached through the per-frequency fall-back", asked=dict(asked))
     ref = ref_filter(vals, dts, truth, fr_)
     kind = case["cls"]
-    is_delay = kind.startswith("delay")
+    is_delay = kind.startswith("delay") or kind == "scalar-only-delay"
     if True:   # also inside the known-finding region m > N: there the output must still equal the 2N-periodic reference
         v.close("output == independent FFT reference with the (symmetrised) response", np.max(np.abs(out - ref)) / sc, tol, N=N, force_real=fr_)
     # (1) linearity and homogeneity
@@ -155,7 +178,7 @@ def run_case(case):
     out3 = run(a_ * vals + b_ * vals2)
     v.close("linear in the signal", np.max(np.abs(out3 - (a_ * out + b_ * out2))) / (sc + np.max(np.abs(vals2))), tol * (abs(a_) + abs(b_) + 1))
     c_ = 2.5 - 1.5j if not fr_ and kind == "non-hermitian" else 2.5
-    out4 = run(vals, H=lambda f: c_ * np.asarray(present(f)) if np.ndim(f) or kind != "scalar-only" else c_ * present(f))
+    out4 = run(vals, H=lambda f: c_ * np.asarray(present(f)) if np.ndim(f) or not kind.startswith("scalar-only") else c_ * present(f))
     if np.iscomplexobj(c_):
         ref4 = ref_filter(vals, dts, lambda f: c_ * truth(f), fr_)
         v.close("homogeneous in the response", np.max(np.abs(out4 - ref4)) / sc, tol * 4)
